@@ -264,3 +264,9 @@ def _ghost(ex, name):
     if z3.is_bool(t):
         return SBool(t)
     return SAny(t)
+
+
+@spec("is_new", None)
+def _is_new(ex, o):
+    """The object was allocated by the function under contract (distinct from every object it received)."""
+    return SBool(z3.Function("is_fresh_object", ObjSort, BoolSort)(o.t))
